@@ -71,6 +71,18 @@ structure RollerCfg where
   count : Nat
   comp : Compression := .none
   codec : Bytes → Bytes := id
+  /-- `rotate` used to `println!("err compressing: …")` before returning the error of its final
+  move/compress; `println!` panics when stdout cannot be written. `false` = the code since the fix
+  (the error is returned without printing); consulted by `Roller.rollProc` (Name.lean). -/
+  printsOnError : Bool := false
+  /-- `true`: `rotate` returns at once when the file to roll does not exist (the repaired variant;
+  NOT the code: the repair is blocked by the crate's own test `rotation_no_trivial_base`, which rolls
+  a missing file and expects the shift — known finding `C07/missing-file-shifts-window`).
+  `false` (the code as it is): the shift loop runs first, the oldest archive is evicted and slot `base`
+  left empty although nothing was rolled (that is `fixedWindowRoll` below applied to a disk without
+  the file). Consulted by `Roller.rollProc` (Name.lean); the appender models (Rolling,
+  Crash) call `fixedWindowRoll` only with the log file present — the appender has just written it. -/
+  checksFileFirst : Bool := false
 
 def applyStep (r : RollerCfg) (file : Path) (s : Step) (d : Disk) : Except FsErr Disk :=
   match s with
